@@ -130,10 +130,57 @@ func c08Scratch(p *core.Prog, s stateful) map[string]string {
 	T := obj.Type().(*types.Named)
 	st := core.StructOf(T)
 	fns := p.SrcFuncs(s.rel)
+	why := "scratch buffer: every use truncates it to [:0] or assigns it first, so what a previous use left in it is never observed (it keeps capacity only)"
+	for f := range c08ScratchFields(p, s.rel, T, fns, s.inputField) {
+		out[pk.Types.Name()+"."+s.typ+"."+f] = why
+		out[s.typ+"."+f] = why
+	}
+	// a helper object the reusable object keeps (a pointer to an unexported struct of the package) carries no state
+	// either when every one of its fields is such a scratch buffer
+	for i := 0; i < st.NumFields(); i++ {
+		fld := st.Field(i)
+		if fld.Exported() {
+			continue
+		}
+		ptr, ok := fld.Type().Underlying().(*types.Pointer)
+		if !ok {
+			continue
+		}
+		T2 := core.NamedOf(ptr.Elem())
+		if T2 == nil || T2.Obj().Pkg() != pk.Types || T2.Obj().Exported() || T2 == T {
+			continue
+		}
+		st2 := core.StructOf(T2)
+		if st2 == nil || st2.NumFields() == 0 {
+			continue
+		}
+		sc := c08ScratchFields(p, s.rel, T2, fns, "")
+		all := true
+		for k := 0; k < st2.NumFields(); k++ {
+			if !sc[st2.Field(k).Name()] {
+				all = false
+			}
+		}
+		if all {
+			w := "helper object kept for its capacity: every field of " + T2.Obj().Name() + " is a scratch buffer that each use truncates or assigns first"
+			out[pk.Types.Name()+"."+s.typ+"."+fld.Name()] = w
+			out[s.typ+"."+fld.Name()] = w
+		}
+	}
+	return out
+}
+
+// c08ScratchFields: the unexported slice fields of T whose previous content no code of the package can observe.
+func c08ScratchFields(p *core.Prog, rel string, T *types.Named, fns []*ssa.Function, inputField string) map[string]bool {
+	out := map[string]bool{}
+	st := core.StructOf(T)
+	if st == nil {
+		return out
+	}
 	eng := newResetEngine(p)
 	eng.assignMode = true
 	eng.objType = T
-	exp := newExposure(p, eng, T, fns, func(f *ssa.Function) bool { return core.InPkgs(f, s.rel) })
+	exp := newExposure(p, eng, T, fns, func(f *ssa.Function) bool { return core.InPkgs(f, rel) })
 	for i := 0; i < st.NumFields(); i++ {
 		fld := st.Field(i)
 		if fld.Exported() {
@@ -142,7 +189,7 @@ func c08Scratch(p *core.Prog, s stateful) map[string]string {
 		if _, isSlice := fld.Type().Underlying().(*types.Slice); !isSlice {
 			continue
 		}
-		if fld.Name() == s.inputField {
+		if fld.Name() == inputField {
 			continue
 		}
 		observed := false
@@ -166,9 +213,7 @@ func c08Scratch(p *core.Prog, s stateful) map[string]string {
 			}
 		}
 		if !observed && loaded {
-			why := "scratch buffer: every use truncates it to [:0] or assigns it first, so what a previous use left in it is never observed (it keeps capacity only)"
-			out[pk.Types.Name()+"."+s.typ+"."+fld.Name()] = why
-			out[s.typ+"."+fld.Name()] = why
+			out[fld.Name()] = true
 		}
 	}
 	return out
